@@ -12,7 +12,15 @@ struct Shard
 {
     long idx = 0, n = 1;
     // does element i of the outermost loop belong to this shard?
-    bool mine(uint64_t i) const { return (long)(i % (uint64_t)n) == idx; }
+    // (every item that is taken is also published as the current unit of work: a crash inside the library is then reported as a
+    // violation naming the item, see vx::mark)
+    const char *label = "enumeration item (index of the harness's outer loop)";
+    bool mine(uint64_t i) const
+    {
+        bool m = (long)(i % (uint64_t)n) == idx;
+        if (m) { vx::mark(label, i, (uint64_t)idx, (uint64_t)n); }
+        return m;
+    }
     // contiguous range split of [0, total)
     void range(uint64_t total, uint64_t &lo, uint64_t &hi) const
     {
